@@ -166,6 +166,7 @@ func init() {
 	add("tplcell", c10P12, "", "data", c10None)
 	add("tplcell", c10J42, "", "data", c10WKeep)
 	c10Ops = append(c10Ops,
+		c10Op{name: "render the last template again in the same engine with the same TemplateData object, continue on the second result", kind: "tplagain"},
 		c10Op{name: "AddHeader(default)", kind: "hdr"},
 		c10Op{name: "AddListItem", kind: "list"},
 		c10Op{name: "work on another document (build, save, reopen, render as template)", kind: "other"},
@@ -282,6 +283,11 @@ type c10Inst struct {
 	reop     int
 	hdr      int
 	list     int
+	// the engine and the caller's data object of the last template render (memory data only):
+	// a caller may render the same template with the same data again and must get the same pictures
+	tplEng  *document.TemplateEngine
+	tplData *document.TemplateData
+	again   int
 }
 
 func (i *c10Inst) Enabled(op int) bool {
@@ -299,8 +305,14 @@ func (i *c10Inst) Enabled(op int) bool {
 		return i.hdr < 2
 	case "list":
 		return i.list < 1
+	case "tplagain":
+		return i.againOK()
 	}
 	return true
+}
+
+func (i *c10Inst) againOK() bool {
+	return i.tplEng != nil && i.again < 2 && (i.lastKind == "tpl" || i.lastKind == "tplcell" || i.lastKind == "tplagain")
 }
 
 func (i *c10Inst) Nontrivial() bool { return i.lastNT }
@@ -353,6 +365,7 @@ func (i *c10Inst) render(data *document.TemplateData) error {
 		return fmt.Errorf("RenderTemplateToDocument: %v", e)
 	}
 	i.doc = d
+	i.tplEng, i.tplData = eng, data
 	for _, p := range i.pics {
 		p.Rend = true
 	}
@@ -443,6 +456,7 @@ func (i *c10Inst) Apply(op int) (string, []rep.Violation) {
 					data.SetImage("pic", path, c10ImageConfig(o.size, false))
 					return i.render(data)
 				})
+				i.tplEng, i.tplData = nil, nil // the file is gone after the call
 			} else if o.via == "details" {
 				data.SetImageWithDetails("pic", "", c10Payload(op), c10ImageConfig(o.size, false), "alt text of pic", "title of pic")
 				err = i.render(data)
@@ -451,6 +465,15 @@ func (i *c10Inst) Apply(op int) (string, []rep.Violation) {
 				err = i.render(data)
 			}
 			added = err == nil
+		case "tplagain":
+			d, e := i.tplEng.RenderTemplateToDocument("t", i.tplData)
+			if e != nil || d == nil {
+				err = fmt.Errorf("second RenderTemplateToDocument: %v", e)
+				return
+			}
+			i.doc = d
+			i.again++
+			i.lastNT = len(i.pics) > 0
 		case "hdr":
 			err = i.doc.AddHeader(document.HeaderFooterTypeDefault, "H")
 			i.hdr++
@@ -611,7 +634,7 @@ func (i *c10Inst) Key() string {
 	for _, p := range i.pics {
 		fmt.Fprintf(&b, "%s/%s/%d/%s/%s/%v;", p.Place, p.Via, p.Op, c10Hash(p.Payload), p.lived(), p.OffAtAdd)
 	}
-	fmt.Fprintf(&b, "|r%d h%d l%d last=%v first=%v|", i.reop, i.hdr, i.list, i.lastKind == "reopen", i.steps == 0)
+	fmt.Fprintf(&b, "|r%d h%d l%d last=%v first=%v again=%v/%d|", i.reop, i.hdr, i.list, i.lastKind == "reopen", i.steps == 0, i.againOK(), i.again)
 	b.WriteString(i.doc.VerifRelDump() + "|" + i.doc.VerifMediaDump() + "|" + strings.Join(i.doc.VerifPartNames(), ",") + "|" + c10DrawingDump(i.doc) + "|" + document.VerifGlobalsDump() + "|" + i.doc.VerifShallowState())
 	return rep.Hash(b.String())
 }
